@@ -6,7 +6,7 @@ V = os.path.dirname(os.path.dirname(os.path.abspath(__file__)))
 
 MC = "model_checking"
 CHECKS = {
- "C02": (MC, "bounded-exhaustive TLC enumeration of local parts (M |= P checked on every state) + replay of every state as a vector into is_822/5321/5322_local under guard pages + TLC validation of unpredicted outcomes",
+ "C02": (MC, "bounded-exhaustive TLC enumeration of local parts (M |= P checked on every state), per-byte sweeps, and an automata-conformance (W-method) suite whose state cover TLC derives from layer P through a VIEW + replay of every state as a vector into is_822/5321/5322_local under guard pages (also -funsigned-char build, Latin-1 locale) + TLC validation of unpredicted outcomes",
          "TLC enumerates all local parts up to a length bound over an alphabet of structure characters; the declarative grammar (layer P) pins accept/reject for each, the real scanners must agree on every vector. Bounded, not a proof: assurance is exhaustive inside the bound.",
          "Trusted: TLC, the hand-written grammar in spec/LocalPart.tla (layer P), the replay driver's comparison. Bound: alphabet and length given in the evidence."),
  "C03": (MC, "same as C02 over UTF-8 chunk alphabets (2/3/4-byte, truncated, surrogate, overlong) for is_6531_local",
@@ -15,10 +15,10 @@ CHECKS = {
  "C01": (MC, "TLC enumeration of addresses + replay through is_*_email, composition of public validators, and eav_init/eav_setup/eav_is_email",
          "Every enumerated address (bounded-exhaustive over structure characters, plus pool and length families) has its decision, code and flag pinned by layer P per mode; the real per-mode functions, the composition of the public part validators and the high-level object must all agree.",
          "Trusted: TLC, spec/Email.tla layer P, replay driver; mode 6531 host names are decided relative to the recorded answers of libidn2 (environment)."),
- "C04": (MC, "TLC enumeration of host names (exhaustive short strings + 63/253 length families + per-byte sweeps) replayed into is_ascii_domain and is_utf8_domain",
+ "C04": (MC, "TLC enumeration of host names (exhaustive short strings + 63/253 length families + per-byte sweeps + W-method suite derived from layer P over label/name counters) replayed into is_ascii_domain and is_utf8_domain",
          "IsHostname (layer P, Split-based, no recursion) pins accept/reject for every enumerated domain; is_ascii_domain must agree exactly, is_utf8_domain must never accept an all-ASCII domain that violates the rules.",
          "Trusted: TLC, spec/Hostname.tla layer P, replay driver. 6531: relative to libidn2's conversion."),
- "C05": (MC, "TLC enumeration of bracketed domains (content alphabet + octet/IPv6-shape/tag/suffix families) with necessary/sufficient sandwich, replayed through the four is_*_email",
+ "C05": (MC, "TLC enumeration of bracketed domains (content alphabet + octet/IPv6-shape/tag/suffix families + W-method suite derived from layer P: 188 states) with necessary/sufficient sandwich, replayed through the four is_*_email",
          "LiteralS => accept => LiteralN and the family flag are checked on every enumerated literal in all modes with tld_check off/on; the band between N and S is executed but not judged.",
          "Trusted: TLC, spec/IpLiteral.tla layer P (RFC 4291 / RFC 5321 4.1.3 transcribed), replay driver."),
  "C07": (MC, "TLC enumeration over the CSV-derived table (all rows x case x depth, near misses) replayed as addresses in four modes",
@@ -50,18 +50,18 @@ CHECKS = {
          "Trusted: TLC, wrap.c fault injector. Multi-fault sequences: every conversion in a history may fail independently."),
  "C17": (MC, "spec instantiated with the option record of each of the 8 Makefile builds; TLC vectors replayed on the matching build; Makefile defaults from make -pn",
          "What each option documents is part of layer P (AtomChar excludes the RFC 20 characters in mode 6531 only, QRules switches 6531 to the 5322 rules, LabelChar admits '_'); everything else is pinned exactly as in the default build.",
-         "Trusted: TLC, layer P with options, the repository Makefile doing the -D mapping (it is the thing under test). Non-ASCII local parts under RFC6531_FOLLOW_RFC5322: only ill-formed UTF-8 is pinned (rejected)."),
+         "Trusted: TLC, layer P with options, the repository Makefile doing the -D mapping (it is the thing under test). Non-ASCII local parts under RFC6531_FOLLOW_RFC5322: ill-formed UTF-8 is pinned (rejected), and well-formed ones without quotes / blanks / controls as in the default build; quoted mixed content is left open."),
  "C18": (MC, "three backend source sets built via the Makefile against thin adapters over one converter; address/TLD/policy vectors and all object histories (with faults) replayed on each; TLC object model with CONSTANT Backend for context balance",
          "Same pins as the idn2 build on every vector; create/destroy balance of the idnkit context checked in TLC (ctx in {0,1}, zero after eav_free, never destroyed at 0) and by adapter counters after every replayed history.",
          "libidn and idnkit themselves are absent: the adapters (harness/adapters) stand for them, so nothing is claimed about those libraries, only about libeav's three source sets."),
- "C11": ("translation_validation", "the CSV is the specification (TldData + ClassOfRow in TLA+); compiled tld_list[], gentld.pl output and gen_utf8_pass_test.pl output validated row by row by TLC (Trace_Table) + line diff of regenerated vs shipped files",
+ "C11": ("translation_validation", "the CSV is the specification (TldData + ClassOfRow in TLA+); compiled tld_list[], the outputs of `make auto` / `make tld-domains`, the converter's A-label of every raw.csv row, and the generator's output on a CSV with Retired / Not assigned manager variants validated row by row by TLC (Trace_Table) + line diff of regenerated vs shipped files",
          "Three programs (the compiled table seen through the exported symbol and is_tld, and the two generators re-run on the shipped CSVs) are checked against the CSV-derived specification on every row; regenerated artefacts are compared with the shipped ones line by line (timestamp aside).",
          "Trusted: TLC, tools/gen_tlddata.py (CSV syntax only), the Text::CSV stand-in harness/perl-shim (Text::CSV is not installed), Python's csv module."),
  "C14": (MC, "TLC over all interleavings of overlapping calls with the library's writable static storage extracted from the build's object files; TSan build + default build running the TLC address vectors in 4-16 threads with comparison to the single-threaded run",
          "Design claim (no shared writable cell) is checked against the actual object files; data races in the compiled code are observed by ThreadSanitizer on spec-generated executions, whatever the schedule actually taken; outcomes compared with the sequential run.",
          "Races as such are observed by TSan, not decided by TLC (DESIGN.md section 9). Trusted: objdump symbol tables, TSan, the threads driver."),
  "C20": (MC, "TLC enumerates files (sequences of line shapes x terminators); spec/Cli.tla pins line structure, comment lines, trimming and echo; the real eav binary is run on every file (default + ASan/UBSan) and compared; verdict/message compared with the library on the pinned address",
-         "Every file of at most MaxLines lines over ~36 line shapes; per line the spec says whether it is a comment, which bytes reach eav_is_email and what is echoed; exit status, stdout structure, verdict and message are compared.",
+         "Every file of at most MaxLines lines over ~85 line shapes, command lines of 2-3 files, and two generated files (262 000 local-part suite lines, all UTF-8 candidates) whose verdicts are compared with the library linked alone; per line the spec says whether it is a comment, which bytes reach eav_is_email and what is echoed; exit status, stdout structure, verdict and message are compared.",
          "Trusted: TLC, spec/Cli.tla, tools/cli.py (output parser), the library oracle run through the replay driver. Lines with NUL: the spec follows the tool's C-string reading (not pinned by the property beyond robustness)."),
  "C10": (MC, "TLC-enumerated UTF-8 domains (8 scripts, IDN TLDs of the table, IDNA violations); relational replay U-label vs converter-produced A-label in mode 6531 and the ASCII modes; every outcome validated by TLC against the recorded converter answer",
          "The property is relational and environment-dependent: what is decided is the library's treatment given the converter's answers (recorded from the same libidn2), not IDNA2008 itself.",
